@@ -977,11 +977,15 @@ func init() {
 			e := fr.i.ex
 			return symI{e.freshVar("now", bvsort(64)), types.Int64}
 		},
-		"time.Sleep": func(fr *frame, a []value) value { return nil },
 		"os.Exit": func(fr *frame, a []value) value {
-			fr.i.ex.exitCode = int(asInt64(a[0]))
-			panic(pathExit{int(asInt64(a[0]))})
+			code := int(asInt64(a[0]))
+			fr.i.ex.exitCode = code
+			if fr.i.ex.catchExit {
+				panic(targetPanic{iface{t: types.Typ[types.String], v: "zz-exit:" + strconv.Itoa(code)}})
+			}
+			panic(pathExit{code})
 		},
+		"time.Sleep": func(fr *frame, a []value) value { fr.i.ex.effect("sleep"); return nil },
 		// --- sort ---
 		"sort.Strings": func(fr *frame, a []value) value {
 			x, _ := a[0].([]value)
